@@ -1,4 +1,5 @@
 import Pms.Props.C20
+import Pms.Props.C20Mod
 
 #print axioms Pms.Voro.C20_rows
 #print axioms Pms.Voro.C20_rows_shape
@@ -20,3 +21,4 @@ import Pms.Props.C20
 #print axioms Pms.Voro.C20_convert
 #print axioms Pms.Voro.C20_source_constants
 #print axioms Pms.Voro.C20_source_shape
+#print axioms Pms.ModShape.C20_module_shape
